@@ -22,6 +22,11 @@
      missing response (AllAnswered; Dev_ExtractOnlyFirst in the model).  Unparsable class includes Content-Length values
      that wrap modulo 2^64 (followed by body octets / by another request): status >= 400 or close, no handler entered.
   6. thorough tier: several pipelines concurrently on several connections of one server.
+  7. round 3: the alphabet has chunked requests with 0..3 trailer fields and HEAD on every kind of target (routed, no
+     route + default handler that sets a body - on a second server of the group that has setDefaultHandler() -, 405,
+     built-in 404); the connection model delivers the pipeline in SEGMENTS (cuts at every position around the header
+     terminator of a request, one or two cuts, a pause before each further write).  Self-tests of the model:
+     Dev_ScanResumeSkips / Dev_OneTrailerOnly violate AllAnswered, Dev_HeadBodyAfterHandler violates HeadNoBody.
 The self-tests of the trace specification use fixed synthetic executions (never what the tree under test produced).
 """
 import os, json, concurrent.futures as cf
@@ -45,12 +50,20 @@ V_SPELL = [("G", 5, True, 2), ("G", 5, True, 3), ("G", 5, True, 4), ("G", 5, Tru
            ("G", 5, False, 8), ("P", 3, True, 5)]
 V_STATUS = [("S204", 5, False), ("S304", 5, False), ("HS204", 5, False), ("HS304", 5, False), ("S304", 5, True, 2)]
 V_BASE = [("G", 5, False), ("P", 3, False), ("T", 0, False), ("N", 0, False), ("H", 5, False)]
+# round 3: chunked requests with 0..3 trailer fields, HEAD on every kind of target (tuple: k, n, close, sp, tr)
+V_NEW = [("C", 3, False, 0, 0), ("C", 3, False, 0, 1), ("C", 3, False, 0, 2), ("C", 3, False, 0, 3), ("D", 5, False), ("HD", 5, False),
+         ("HM", 0, False), ("HN", 0, False)]
+# segmented delivery: one cut at every position, pipelines of <= 2 / two cuts in one request
+V_SEG1 = [("G", 5, False), ("G", 5, True), ("H", 5, False), ("P", 3, False), ("C", 3, False, 0, 2), ("N", 0, False), ("HD", 5, False),
+          ("B", 1, False)]
+V_SEG2 = [("G", 5, False), ("P", 3, False), ("C", 3, False, 0, 2), ("HD", 5, False)]
 # pipelines of three requests are drawn from this subset in the quick tier
 V_SMALL = [("G", 5, False), ("G", 5, True), ("H", 5, False), ("P", 3, False), ("T", 0, False), ("N", 0, False), ("B", 1, False),
            ("U", 1, False), ("L", 1024, False)]
 
 METHOD = {"G": "GET", "H": "HEAD", "P": "POST", "C": "POST", "T": "GET", "R": "GET", "N": "GET", "M": "DELETE", "O": "OPTIONS",
-          "B": "GET", "U": "POST", "L": "GET", "S204": "GET", "S304": "GET", "HS204": "HEAD", "HS304": "HEAD"}
+          "B": "GET", "U": "POST", "L": "GET", "S204": "GET", "S304": "GET", "HS204": "HEAD", "HS304": "HEAD", "D": "GET", "HD": "HEAD", "HM": "HEAD", "HN": "HEAD"}
+TRAILERS = [b"X-Sum: 1\r\n", b"X-Len: 22\r\n", b"X-Sig: abc\r\n"]
 # spellings of the Connection field (sp of HttpPipeline.tla); 1..6 ask for a close
 SPELL = {0: None, 1: b"close", 2: b"Close", 3: b"CLOSE", 4: b"cLoSe", 5: b"keep-alive, Close", 6: b" \t close  ", 7: b"Keep-Alive",
          8: b"keep-alive"}
@@ -74,8 +87,15 @@ def render_request(r, xid, delay_us=None, hot=False):
         return b"POST /echo HTTP/1.1\r\n" + common + b"Content-Length: %d\r\n\r\n" % n + fill * n
     if k == "C":
         a = n // 2
-        body = (b"%x\r\n" % a + fill * a + b"\r\n" if a else b"") + b"%x;ext=1\r\n" % (n - a) + fill * (n - a) + b"\r\n0\r\nT: v\r\n\r\n"
+        body = (b"%x\r\n" % a + fill * a + b"\r\n" if a else b"") + b"%x;ext=1\r\n" % (n - a) + fill * (n - a) + b"\r\n0\r\n" + \
+            b"".join(TRAILERS[:r.get("tr", 1)]) + b"\r\n"
         return b"POST /echo HTTP/1.1\r\n" + common + b"Transfer-Encoding: chunked\r\n\r\n" + body
+    if k in ("D", "HD"):      # no route: answered by the default handler of the second server
+        return b"%s /missing/%d HTTP/1.1\r\n" % (METHOD[k].encode(), n) + common + b"\r\n"
+    if k == "HM":             # the path exists for POST only
+        return b"HEAD /echo HTTP/1.1\r\n" + common + b"\r\n"
+    if k == "HN":
+        return b"HEAD /nowhere HTTP/1.1\r\n" + common + b"\r\n"
     if k == "T":
         return b"GET /throw HTTP/1.1\r\n" + common + b"\r\n"
     if k == "R":
@@ -103,30 +123,46 @@ def render_request(r, xid, delay_us=None, hot=False):
 def case_line(case, group, par, local, wait_ms):
     pipe = case["pipe"]
     delays = case.get("delays") or [None] * len(pipe)
-    stream = b"".join(render_request(r, local * 10 + i + 1, delays[i], -(i + 1) in case["order"]) for i, r in enumerate(pipe))
+    parts = [render_request(r, local * 10 + i + 1, delays[i], -(i + 1) in case["order"]) for i, r in enumerate(pipe)]
+    stream = b"".join(parts)
+    # the cuts <<i, o>> of the model: o octets after the start of the CRLFCRLF that ends the header section of request i
+    at = []
+    for i, o in case.get("cuts") or []:
+        t = parts[i - 1].find(b"\r\n\r\n")
+        pos = sum(len(x) for x in parts[:i - 1]) + t + o
+        if t < 0 or not 0 < pos < len(stream) or (at and pos <= at[-1]):
+            raise vf.Infra("cut %r of case %r does not fall inside the stream" % ((i, o), case))
+        at.append(pos)
+    segs = [stream[a:b] for a, b in zip([0] + at, at + [len(stream)])]
     specs = ",".join("%s:%d:%s" % (r["k"], r["n"], METHOD[r["k"]]) for r in pipe)
     return "%d %d %d %d %d %d | %s | %s | %s | %s" % (
         group, par, local, wait_ms, case["wantResp"], 1 if case["wantClose"] else 0,
-        json.dumps(pipe, separators=(",", ":")), specs, stream.hex(),
+        json.dumps(pipe, separators=(",", ":")), specs, "/".join(x.hex() for x in segs),
         ",".join((["*"] if case.get("natural") else []) + [str(i) for i in case["order"]]))
 
 
-def mc(ck, name, variants, maxlen, devs=(), export=False, workers=3, invs=None):
+def mc(ck, name, variants, maxlen, devs=(), export=False, workers=3, invs=None, maxcuts=0, offsets=(), same=False):
     d = os.path.join(ck.work, name)
     os.makedirs(d, exist_ok=True)
     with open(os.path.join(d, "MCPipe.tla"), "w") as f:
-        f.write("---- MODULE MCPipe ----\nEXTENDS HttpPipeline\nMCVariants == {%s}\n====\n" % ", ".join(
-            '[k |-> "%s", n |-> %d, close |-> %s, sp |-> %d]' % (v[0], v[1], "TRUE" if v[2] else "FALSE", v[3] if len(v) > 3 else (1 if v[2] else 0))
-            for v in variants))
+        f.write("---- MODULE MCPipe ----\nEXTENDS HttpPipeline\nMCVariants == {%s}\nMCOffsets == {%s}\n====\n" % (", ".join(
+            '[k |-> "%s", n |-> %d, close |-> %s, sp |-> %d, tr |-> %d]' % (
+                v[0], v[1], "TRUE" if v[2] else "FALSE", v[3] if len(v) > 3 else (1 if v[2] else 0),
+                v[4] if len(v) > 4 else (1 if v[0] == "C" else 0))
+            for v in variants), ", ".join(str(o) for o in offsets)))
     cfg = os.path.join(d, "MCPipe.cfg")
     vf.write_cfg(cfg, constants={"Variants": "<- MCVariants", "MaxLen": maxlen, "Workers": workers,
                                  "Dev_CompletionOrder": "Dev_CompletionOrder" in devs,
                                  "Dev_BadFramingWaits": "Dev_BadFramingWaits" in devs,
                                  "Dev_SplitSendUnlocked": "Dev_SplitSendUnlocked" in devs,
                                  "Dev_ExtractOnlyFirst": "Dev_ExtractOnlyFirst" in devs,
-                                 "Dev_CloseDropsQueued": "Dev_CloseDropsQueued" in devs},
-                 invariants=(invs or ["InOrder", "AllAnswered", "NoInterleave"]) + (["CaseOut"] if export else []))
-    return vf.run_tlc(os.path.join(d, "MCPipe.tla"), cfg, tag="C16_" + name, workers=6 if export else 2, coverage=export,
+                                 "Dev_CloseDropsQueued": "Dev_CloseDropsQueued" in devs,
+                                 "Dev_ScanResumeSkips": "Dev_ScanResumeSkips" in devs,
+                                 "Dev_OneTrailerOnly": "Dev_OneTrailerOnly" in devs,
+                                 "Dev_HeadBodyAfterHandler": "Dev_HeadBodyAfterHandler" in devs,
+                                 "MaxCuts": maxcuts, "CutOffsets": "<- MCOffsets", "SameReqCuts": same},
+                 invariants=(invs or ["InOrder", "AllAnswered", "NoInterleave", "HeadNoBody"]) + (["CaseOut"] if export else []))
+    return vf.run_tlc(os.path.join(d, "MCPipe.tla"), cfg, tag="C16_" + name, workers=4 if export else 2, coverage=export,
                       lib_dirs=[SPECDIR], timeout=1500)
 
 
@@ -149,7 +185,7 @@ def cases_of(r):
 
 def nontrivial(case):
     ks = [r["k"] for r in case["pipe"]]
-    return len(ks) > 1 or ks[0] not in ("G", "P", "N", "M", "O") or case["pipe"][0]["close"]
+    return len(ks) > 1 or ks[0] not in ("G", "P", "N", "M", "O") or case["pipe"][0]["close"] or bool(case.get("cuts"))
 
 
 def trace_cfg(ck, allowed, evalpass=False):
@@ -190,8 +226,10 @@ def known_list(ck):
 
 
 def describe(case, evs):
-    return "pipeline %s, handlers return in order %s%s: %s" % (
-        json.dumps(case["pipe"], separators=(",", ":")), case["order"], " (natural run, delays %s us)" % case.get("delays") if case.get("natural") else "",
+    return "pipeline %s%s, handlers return in order %s%s: %s" % (
+        json.dumps(case["pipe"], separators=(",", ":")),
+        ", delivered in %d segments cut at <<request, octets after the start of its header terminator>> = %s" % (
+            len(case["cuts"]) + 1, case["cuts"]) if case.get("cuts") else "", case["order"], " (natural run, delays %s us)" % case.get("delays") if case.get("natural") else "",
         json.dumps([{k: v for k, v in e.items()} for e in evs if e["e"] in ("Release", "Resp", "End")], separators=(",", ":"))[:700])
 
 
@@ -358,7 +396,7 @@ def judge(ck, cases, lines, out_path, name, retry=True):
             ck.more_violations = getattr(ck, "more_violations", 0) + len(rejected) - len(chosen)
 
 
-GATED = ("G", "H", "P", "C", "T", "R", "L", "S204", "S304", "HS204", "HS304")
+GATED = ("G", "H", "P", "C", "T", "R", "L", "S204", "S304", "HS204", "HS304", "D", "HD")
 
 
 def soft(ev, case):
@@ -386,8 +424,8 @@ def explain(ev):
     return "unexplained fact"
 
 
-def R(k, n=0, close=False, sp=None):
-    return {"k": k, "n": n, "close": close, "sp": (1 if close else 0) if sp is None else sp}
+def R(k, n=0, close=False, sp=None, tr=0):
+    return {"k": k, "n": n, "close": close, "sp": (1 if close else 0) if sp is None else sp, "tr": tr}
 
 
 def resp(for_, st, cl, bl=None, fill=True, alien=False):
@@ -415,6 +453,10 @@ def self_test_trace(ck):
         "bodiless status, self-consistent": [{"e": "Begin", "reqs": [R("S204", 5), R("HS204", 5)]}, rel(1), resp(1, 204, 5, 5), rel(2), resp(2, 204, -1, 0),
                                              end(invoked=[1, 2])],
         "close spelled Close": [{"e": "Begin", "reqs": [R("G", 5, True, 5), R("G", 5)]}, rel(1), resp(1, 200, 5), end(closed=True, invoked=[1, 2])],
+        "head, default handler": [{"e": "Begin", "reqs": [R("HD", 5), R("D", 5)]}, rel(1), resp(1, 404, 5, 0), rel(2), resp(2, 404, 5), end(invoked=[1, 2])],
+        "head, 405 / built-in 404": [{"e": "Begin", "reqs": [R("HM"), R("HN"), R("G", 5)]}, resp(0, 405, 18, 0), resp(0, 404, 9, 0), rel(3), resp(3, 200, 5),
+                                     end(invoked=[3])],
+        "three trailer fields": [{"e": "Begin", "reqs": [R("C", 3, tr=3), R("G", 5)]}, rel(1), resp(1, 200, 3), rel(2), resp(2, 200, 5), end(invoked=[1, 2])],
         "head": [{"e": "Begin", "reqs": [R("H", 5), R("T")]}, rel(1), resp(1, 200, 5, 0), rel(2), resp(2, 500, 21, 21, False), end(invoked=[1, 2])],
     }
     reversed_two = [two[0], rel(2), resp(2, 200, 5), rel(1), resp(1, 200, 5), end(invoked=[1, 2])]
@@ -428,6 +470,14 @@ def self_test_trace(ck):
         "interleaved body (out of order)": [big[0], rel(2), rel(1), resp(2, 200, 5), resp(1, 200, 65536, None, False, True), end(invoked=[1, 2])],
         "garbage between responses": two[:-1] + [end(left=40, garbage=True, invoked=[1, 2])],
         "body after HEAD": [{"e": "Begin", "reqs": [R("H", 5)]}, rel(1), resp(1, 200, 5, 0), end(left=5, garbage=True, invoked=[1])],
+        "body after HEAD (default handler)": [{"e": "Begin", "reqs": [R("HD", 5), R("G", 5)]}, rel(1), resp(1, 404, 5, 0), rel(2),
+                                              end(left=140, garbage=True, invoked=[1, 2])],
+        "HEAD 405 with its body": [{"e": "Begin", "reqs": [R("HM")]}, resp(0, 405, 18, 18), end()],
+        "valid request after two trailer fields answered 400": [{"e": "Begin", "reqs": [R("C", 3, tr=2), R("G", 5)]}, rel(1), resp(1, 200, 3),
+                                                                resp(0, 400, 11), rel(2), end(closed=True, invoked=[1])],
+        "one chunked request, two responses": [{"e": "Begin", "reqs": [R("C", 3, tr=3)]}, rel(1), resp(1, 200, 3), resp(0, 400, 11),
+                                               end(closed=True, invoked=[1])],
+        "complete request (terminator split over two segments) never answered": [{"e": "Begin", "reqs": [R("G", 5)]}, rel(1), end(closed=False)],
         "throw answered 200": [{"e": "Begin", "reqs": [R("T")]}, rel(1), resp(1, 200, 21, 21, False), end(invoked=[1])],
         "no close after Connection: close": [{"e": "Begin", "reqs": [R("G", 5, True)]}, rel(1), resp(1, 200, 5), end(closed=False, invoked=[1])],
         "handler entered for a wrapped Content-Length": [{"e": "Begin", "reqs": [R("U", 4)]}, resp(1, 200, 3), end(closed=False, invoked=[1])],
@@ -492,7 +542,9 @@ def run(ck):
     ck.rule = ("cases = terminal states of spec/http/HttpPipeline.tla: every pipeline of <= 3 requests over the request classes "
                "(handler with set_content, HEAD, POST echo with Content-Length / chunked body, throwing handler, raw body with "
                "manual Content-Length, 404, 405, OPTIONS, unparsable request line, undecidable length; with and without "
-               "Connection: close; large bodies of 64 KiB / 1 MiB / 4 MiB; Content-Length values that wrap modulo 2^64) x every "
+               "Connection: close; chunked requests with 0..3 trailer fields; HEAD on a routed target / no route + default handler that "
+               "sets a body / 405 / built-in 404; the pipeline delivered in 1..3 segments cut at every position around the header "
+               "terminator of a request; large bodies of 64 KiB / 1 MiB / 4 MiB; Content-Length values that wrap modulo 2^64) x every "
                "order in which the gated handlers return, including returns while a large response is between its write steps; "
                "plus ungated natural repetitions of large + small pipelines with handler delays; non-trivial = more than one "
                "request, or a HEAD / chunked / throwing / raw / large / unparsable / closing request")
@@ -504,17 +556,25 @@ def run(ck):
         fd4 = ex.submit(mc, ck, "dev_first", V_SMALL, 2, ("Dev_ExtractOnlyFirst",))
         fd5 = ex.submit(mc, ck, "dev_trunc", V_SMALL + [("L", 1024, True)], 2, ("Dev_CloseDropsQueued",))
         f2 = ex.submit(mc, ck, "len2", variants, 2, (), True)
+        f2c = ex.submit(mc, ck, "len2c", V_BASE + V_NEW, 2, (), True)
+        fs1 = ex.submit(mc, ck, "seg1", V_SEG1 + (V_NEW if thorough else []), 2, (), True, 3, None, 1, (-1, 0, 1, 2, 3, 4))
+        fs2 = ex.submit(mc, ck, "seg2", V_SEG2 + ([("H", 5, False), ("G", 5, True)] if thorough else []), 2, (), True, 3, None, 2, (0, 1, 2, 3, 4), True)
+        fd6 = ex.submit(mc, ck, "dev_scan", [("G", 5, False), ("P", 3, False)], 2, ("Dev_ScanResumeSkips",), False, 3, None, 1, (0, 1, 2, 3, 4))
+        fd7 = ex.submit(mc, ck, "dev_trail", [("G", 5, False), ("C", 3, False, 0, 2)], 2, ("Dev_OneTrailerOnly",))
+        fd8 = ex.submit(mc, ck, "dev_head", [("G", 5, False), ("HD", 5, False), ("H", 5, False)], 2, ("Dev_HeadBodyAfterHandler",), False, 3, ["HeadNoBody"])
         f2b = ex.submit(mc, ck, "len2b", V_BASE + V_SPELL + V_STATUS + (variants if thorough else []), 2, (), True)
-        f3 = ex.submit(mc, ck, "len3", variants if thorough else V_SMALL, 3, (), True)
+        f3 = ex.submit(mc, ck, "len3", variants + V_NEW if thorough else V_SMALL, 3, (), True)
         fd1 = ex.submit(mc, ck, "dev_order", V_SMALL, 2, ("Dev_CompletionOrder",))
         fd2 = ex.submit(mc, ck, "dev_wait", V_SMALL, 2, ("Dev_BadFramingWaits",))
         fw = ex.submit(mc, ck, "workers1", V_SMALL, 3, (), False, 1)
         fb.result()
         r2, r3, rd1, rd2, rw = f2.result(), f3.result(), fd1.result(), fd2.result(), fw.result()
-        r2b = f2b.result()
+        r2b, r2c, rs1, rs2 = f2b.result(), f2c.result(), fs1.result(), fs2.result()
+        rd6, rd7, rd8 = fd6.result(), fd7.result(), fd8.result()
         rd3, rd4, rd5 = fd3.result(), fd4.result(), fd5.result()
         fst.result()
-    for nm, r in (("len<=2", r2), ("len<=2, Connection spellings / bodiless statuses", r2b), ("len<=3", r3), ("one worker", rw)):
+    for nm, r in (("len<=2", r2), ("len<=2, Connection spellings / bodiless statuses", r2b), ("len<=3", r3), ("one worker", rw),
+                  ("len<=2, trailer fields / HEAD targets", r2c), ("len<=2, one cut", rs1), ("len<=2, two cuts in one request", rs2)):
         if r.error:
             raise vf.Infra("TLC failed on HttpPipeline (%s): %s" % (nm, r.error))
         ck.states += r.distinct
@@ -525,7 +585,7 @@ def run(ck):
         if r.violated:
             rp = ck.save_replay("impl_spec", {"tlc.out": r.out})
             ck.violation("HttpPipeline.tla (sequenced design) violates %s" % r.violated, rp)
-    for a in ["IoExtract", "IoGiveUp", "Start", "FinishStep", "SendStep", "SendHeadStep", "SendBodyStep", "CloseStep"]:
+    for a in ["IoExtract", "IoGiveUp", "Start", "FinishStep", "SendStep", "SendHeadStep", "SendBodyStep", "CloseStep", "Deliver"]:
         if ck.cov.get(a, 0) == 0:
             raise vf.Infra("self-test: Impl action %s never taken" % a)
     if rd1.violated != "InOrder":
@@ -540,11 +600,18 @@ def run(ck):
         raise vf.Infra("self-test: HttpPipeline with Dev_ExtractOnlyFirst should violate AllAnswered, got %r %s" % (rd4.violated, rd4.error))
     if rd5.violated != "AllAnswered":
         raise vf.Infra("self-test: HttpPipeline with Dev_CloseDropsQueued should violate AllAnswered, got %r %s" % (rd5.violated, rd5.error))
+    if rd6.violated != "AllAnswered":
+        raise vf.Infra("self-test: HttpPipeline with Dev_ScanResumeSkips should violate AllAnswered, got %r %s" % (rd6.violated, rd6.error))
+    if rd7.violated != "AllAnswered":
+        raise vf.Infra("self-test: HttpPipeline with Dev_OneTrailerOnly should violate AllAnswered, got %r %s" % (rd7.violated, rd7.error))
+    if rd8.violated != "HeadNoBody":
+        raise vf.Infra("self-test: HttpPipeline with Dev_HeadBodyAfterHandler should violate HeadNoBody, got %r %s" % (rd8.violated, rd8.error))
+    ck.states += rd6.distinct + rd7.distinct + rd8.distinct
     ck.states += rd1.distinct + rd2.distinct + rd3.distinct + rd4.distinct + rd5.distinct
     ck.transitions += rd1.generated + rd2.generated + rd3.generated + rd4.generated
     ck.exhaustive = True
     seen, cases = set(), []
-    for c in cases_of(r2) + cases_of(r2b) + cases_of(r3):
+    for c in cases_of(r2) + cases_of(r2b) + cases_of(r3) + cases_of(r2c) + cases_of(rs1) + cases_of(rs2):
         key = json.dumps(c, sort_keys=True)
         if key not in seen:
             seen.add(key)
@@ -554,9 +621,22 @@ def run(ck):
     for sp in range(2, 9):
         if not any(any(r.get("sp") == sp for r in c["pipe"][:-1]) for c in cases):
             raise vf.Infra("generator produced no pipeline with Connection spelling %d followed by another request" % sp)
-    for cls in ("U", "B", "H", "T", "C", "L", "S204", "S304", "HS204", "HS304"):
+    for cls in ("U", "B", "H", "T", "C", "L", "S204", "S304", "HS204", "HS304", "D", "HD", "HM", "HN"):
         if not any(any(r["k"] == cls for r in c["pipe"]) for c in cases):
             raise vf.Infra("generator produced no pipeline with request class " + cls)
+    for cls in ("H", "HD", "HM", "HN"):
+        if not any(c["pipe"][0]["k"] == cls and len(c["pipe"]) > 1 for c in cases):
+            raise vf.Infra("generator produced no pipeline in which another request follows a HEAD of class " + cls)
+    for tr in range(4):
+        if not any(c["pipe"][0]["k"] == "C" and c["pipe"][0].get("tr") == tr and len(c["pipe"]) > 1 for c in cases) or \
+                not any(c["pipe"][-1]["k"] == "C" and c["pipe"][-1].get("tr") == tr for c in cases):
+            raise vf.Infra("generator produced no chunked request with %d trailer fields (followed by another request / last)" % tr)
+    for o in (-1, 0, 1, 2, 3, 4):
+        for i in (1, 2):
+            if not any(c.get("cuts") == [[i, o]] for c in cases):
+                raise vf.Infra("generator produced no pipeline cut once at <<%d, %d>>" % (i, o))
+    if not any(len(c.get("cuts") or []) == 2 and all(1 <= o <= 3 for _, o in c["cuts"]) for c in cases):
+        raise vf.Infra("generator produced no pipeline in three segments with both cuts inside one header terminator")
     if not any(c["order"] != sorted(c["order"]) for c in cases):
         raise vf.Infra("generator produced no case whose handlers return out of request order")
     if not any(any(i < 0 for i in c["order"]) for c in cases):
@@ -591,11 +671,11 @@ def run(ck):
         judge(ck, pick, lines2, out2, "many")
     ck.nontrivial = len(ck.nontrivial_keys)
     ck.note("deviation actions needed: %s" % ck.dev_counts)
-    for c in (cases[0], [c for c in cases if c["order"] != sorted(c["order"])][0], [c for c in cases if c["pipe"][-1]["k"] == "U"][-1],
+    for c in (cases[0], [c for c in cases if len(c.get("cuts") or []) == 2][0], [c for c in cases if c["order"] != sorted(c["order"])][0], [c for c in cases if c["pipe"][-1]["k"] == "U"][-1],
               [c for c in cases if any(i < 0 for i in c["order"])][0], nat[0]):
         ck.sample({"pipeline": c["pipe"], "handlers_return_in_order": c["order"], "responses_expected": c["wantResp"],
-                   "close_expected": c["wantClose"], "natural_run_delays_us": c.get("delays"),
-                   "bytes": case_line(c, 0, 1, 0, 0).split(" | ")[3][:160]})
+                   "close_expected": c["wantClose"], "cuts": c.get("cuts"), "natural_run_delays_us": c.get("delays"),
+                   "bytes": case_line(c, 0, 1, 0, 0).split(" | ")[3][:200]})
 
 
 def replay(ck, path):
